@@ -39,6 +39,7 @@ def chart_from_value(v):
                 n.initial = [nodes[x - 1] for x in s["init"]]
     # decide tlast per node so that the transition numbering is reproduced
     c = Chart(nodes[0], binding=v["binding"], vars_=v["vars"], cid=v["id"], tags=v.get("tags", []))
+    c.arrays = {a["n"]: list(a["v"]) for a in v.get("arrays", [])}
     def numbering_ok():
         return all(t.idx == t.want_idx for t in c.trans)
     if not numbering_ok():
